@@ -477,6 +477,21 @@ class HTTPChannel(wasyncore.dispatcher):
             else:
                 task.close_on_finish = True
 
+        if (
+            not task.close_on_finish
+            and not self.will_close
+            and len(self.requests) > 1
+        ):
+            # before processing a new request, ensure there is not too
+            # much data in the outbufs waiting to be flushed
+            # NB: currently readable() returns False while we are
+            # flushing data so we know no new requests will come in
+            # that we need to account for, otherwise it'd be better
+            # to do this check at the start of the request instead of
+            # at the end to account for consecutive service() calls
+            # (this flush may fail and set will_close, hence before the test)
+            self._flush_outbufs_below_high_watermark()
+
         if task.close_on_finish or self.will_close:
             # will_close: a flush failed with a socket error while this
             # request was running, the connection is going away; do not
@@ -488,17 +503,6 @@ class HTTPChannel(wasyncore.dispatcher):
                     request.close()
                 self.requests = []
         else:
-            # before processing a new request, ensure there is not too
-            # much data in the outbufs waiting to be flushed
-            # NB: currently readable() returns False while we are
-            # flushing data so we know no new requests will come in
-            # that we need to account for, otherwise it'd be better
-            # to do this check at the start of the request instead of
-            # at the end to account for consecutive service() calls
-
-            if len(self.requests) > 1:
-                self._flush_outbufs_below_high_watermark()
-
             # this is a little hacky but basically it's forcing the
             # next request to create a new outbuf to avoid sharing
             # outbufs across requests which can cause outbufs to
